@@ -213,6 +213,72 @@ def select_check(case):
     return Res(v, o=(layout,), tr=ntr)
 
 
+# ------------------------------------------------------------------ shank files written by the real converter, opened through the Reader
+SPLIT_ASSIGN = ([0, 1, 2, 3, 3, 0], [1, 3, 3, 1, 1, 3], [0, 0, 1, 1, 2, 2, 3, 3, 0, 1], [2, 2, 2, 0], [3, 1, 3, 1, 3, 1, 3, 3, 3, 3, 3, 3])
+
+
+def splitfile_cases(tier, seed):
+    return [(i, enc) for i in range(len(SPLIT_ASSIGN)) for enc in ("shank", "geom")]
+
+
+def splitfile_check(case):
+    """the geometry the READER reports for a per-shank file (fewer saved channels than table entries) is the parent's restricted to that shank"""
+    from mc import np2
+    ai, enc = case
+    assign = SPLIT_ASSIGN[ai]
+    root = os.path.join(synth.proc_scratch(), "c08split")
+    np2.clean(root)
+    sites = np2.sites_for(assign)
+    ns = 700
+    data = np2.content(ns, len(sites) + 1, "ramp")
+    folder = os.path.join(root, np2.LABEL)
+    items = synth.meta_items("NP2.4", sites, ns, encoding=enc)
+    ap = synth.write_recording(folder, np2.STEM + ".ap", data, items)
+    v = []
+    seen = set()
+
+    def bad(key, msg):
+        if key not in seen:
+            seen.add(key)
+            v.append((key, msg))
+    ntr = 0
+    try:
+        parents = {}
+        for sort in (True, False):
+            sr = spikeglx.Reader(ap, sort=sort)
+            parents[sort] = {k: np.array(sr.geometry[k]) for k in KEYS if k in sr.geometry}
+            sr.close()
+        st, conv = np2.convert(ap, nwindow=600, compress=False)
+        np2.release(conv)
+        if st != 1:
+            bad("splitfile:status", "%r: conversion returned %r" % (assign, st))
+        for sh in sorted(set(assign)):
+            for band in ("ap", "lf"):
+                f = os.path.join(np2.shank_folder(root, sh), "%s.%s.bin" % (np2.STEM, band))
+                for sort in (True, False):
+                    sr = spikeglx.Reader(f, sort=sort)
+                    ntr += 1
+                    g = sr.geometry
+                    nchan = sr.nc - sr.nsync
+                    parent = parents[sort]
+                    sel = np.flatnonzero(parent["shank"] == sh)
+                    for key in KEYS:
+                        if key == "ind":
+                            continue
+                        got = np.asarray(g[key])
+                        if got.shape != (nchan,):
+                            bad("splitfile:entries", "%r (%s map) shank %d %s file sort=%s: %d recorded channels but geometry lists %d values for %r"
+                                % (assign, enc, sh, band, sort, nchan, got.size, key))
+                        elif not np.array_equal(got, parent[key][sel]):
+                            bad("splitfile:%s" % key, "%r (%s map) shank %d %s file sort=%s: reader geometry %s=%r is not the parent's restriction %r"
+                                % (assign, enc, sh, band, sort, key, got.tolist(), parent[key][sel].tolist()))
+                    sr.close()
+    except Exception as e:
+        bad("splitfile:exc:%s" % type(e).__name__, "%r (%s map): %s: %s" % (assign, enc, type(e).__name__, e))
+    np2.clean(root)
+    return Res(v, o=(ai, enc), tr=ntr)
+
+
 # ------------------------------------------------------------------ structured 384-site layouts
 def full_cases(tier, seed):
     out = []
@@ -272,6 +338,7 @@ CHECK = {
         Clause("grids", "row/col <-> x/y on whole probe grids", cases=grid_cases, check=grid_check),
         Clause("dense", "canonical dense layouts", cases=dense_cases, check=dense_check),
         Clause("selections", "all ordered k-site selections of a 16-site sub-grid, both encodings, sorted/unsorted, split shanks", cases=select_cases, check=select_check),
+        Clause("split-files", "per-shank files written by the converter, opened through the Reader (both bands, both encodings, sorted / unsorted)", cases=splitfile_cases, check=splitfile_check),
         Clause("full-probe", "384-site layouts in rotated / reversed / striped channel orders", cases=full_cases, check=full_check),
     ],
 }
